@@ -391,7 +391,7 @@ class C06Check(core.Check):
 
     def budgets(self, tier):
         if tier == 'thorough':
-            return {'runs': 60000, 'determinism': 100, 'wall': 3300}
+            return {'runs': 120000, 'determinism': 100, 'wall': 3400}
         return {'runs': 2000, 'determinism': 20, 'wall': 1800}
 
     def generate(self, rng, run_index, tier):
